@@ -1,5 +1,6 @@
 // q.cc - world Q: file system, boot, driver ops, stub spawners
 #include "q.h"
+#include "q_time.h"
 #include <errno.h>
 #include <fcntl.h>
 #include <string.h>
@@ -9,7 +10,9 @@
 
 namespace sim {
 
-WorldQ::~WorldQ() { for (auto *m : msgs) delete m; }
+WorldQ::~WorldQ() { for (auto *m : msgs) delete m; delete tg; }
+void time_ghost_idle(TimeGhost *t, int64_t from, int64_t to);
+void WorldQ::on_idle(int64_t from, int64_t to) { if (tg) time_ghost_idle(tg, from, to); }
 
 bool WorldQ::enabled(const std::string &o) const { return oracles_on.empty() ? !oracles_off.count(o) : oracles_on.count(o) > 0; }
 
@@ -82,6 +85,7 @@ void WorldQ::setup() {
   for (auto &o : plan->knobs["oracles"].a) oracles_on.insert(o.str());
 
   logsink = k->new_sink("qmail-send-log");
+  if (enabled("c15") || enabled("c16")) { if (!oracles_on.empty() || plan->knobs.getb("timing", false)) tg = make_time_ghost(this); }
 
   // scripts and planted entries are part of the ops list but take effect at setup
   for (auto &op : plan->ops.a) {
@@ -111,9 +115,9 @@ int WorldQ::spawner_stub(int chan) {
       if (best == pend.size()) break;
       Pending p = pend[best]; pend.erase(pend.begin() + (long)best);
       if (p.die) return 0;   // spawner dies with this delivery outstanding
-      on_report(chan, p.delnum, p.text, p.wellformed);
       size_t off = 0;
       while (off < p.bytes.size()) { ssize_t w = kk->sys_write(1, p.bytes.data() + off, p.bytes.size() - off); if (w <= 0) return 0; off += (size_t)w; }
+      on_report(chan, p.delnum, p.text, p.wellformed);   // a report exists once its last byte is in the pipe (no yield between the write's effect and here)
     }
     int64_t next = -1;
     for (auto &p : pend) if (next < 0 || p.at < next) next = p.at;
